@@ -13,9 +13,9 @@ package main
 
 import (
 	"fmt"
-	"os"
 	"go/token"
 	"go/types"
+	"os"
 	"sort"
 
 	"golang.org/x/tools/go/ssa"
@@ -1248,7 +1248,7 @@ func blockAborts(b *ssa.BasicBlock) bool {
 
 // boundsExempt: sites outside the linear-offset vocabulary, each with the reason it is safe.
 var boundsExempt = map[string]string{
-	"tubes.(*Reliable).send|index < len": "retransmission loops index r.sender.frames below framesToSend(...,0), which clamps its result to len(s.frames), or below len(r.sender.frames) itself; r.l is held throughout, so the slice cannot shrink in between (lock discipline: C16.R3); timer-driven, not a function of a single peer frame",
+	"tubes.(*Reliable).send|index < len":                                 "retransmission loops index r.sender.frames below framesToSend(...,0), which clamps its result to len(s.frames), or below len(r.sender.frames) itself; r.l is held throughout, so the slice cannot shrink in between (lock discipline: C16.R3); timer-driven, not a function of a single peer frame",
 	"transport.(*SessionState).sealPacketLocked|slice high bound <= len": "rawWrite was Reset and then received HeaderLen+SessionIDLen+CounterLen = AssociatedDataLen bytes through bytes.Buffer writes just above (bytes.Buffer contents are not modelled); not dependent on peer input (send path)",
 }
 
